@@ -152,13 +152,44 @@ def build():
          ],
          raises={"ValueError": "is_str(time_string) and not time_ok(upper(time_string))"},
          modifies=[], replay_seeds={"time_string": ["100msec", "1.5s", "2m", "3h", "1d", "20sec", "7", "5ms"]})
-    C.ext("Util.string_to_secs", params=dict(time_string=Union(Int, Real, Str)), result=Real, raises={"ValueError": True},
-          trusted_reason="string_to_secs = string_to_ms(with 's' appended when there is no unit) / 1000; iterates the "
-                         "characters of the string (outside the verified subset); assumed to return a float or raise")
+    from pyvc import regex
+    regex.install(C)
+    C.helpers["has_letter"] = lambda I, s: VBool(regex.quantified_char_pred("any", "isalpha", I.force(s).t))
+    def secs_rejects(I, v):
+        """string_to_secs raises ValueError: for a string exactly when the text (with 's' appended if it has no
+        letter) is not a valid time string; numbers never; other objects (their str() is used): unknown"""
+        alts = v.alts if isinstance(v, VUnion) else ((z3.BoolVal(True), v),)
+        out = []
+        for g, a in alts:
+            if a.tag == "str":
+                hl = regex.quantified_char_pred("any", "isalpha", a.t)
+                txt = z3.If(hl, a.t, z3.Concat(a.t, z3.StringVal("s")))
+                out.append(z3.And(g, z3.Not(time_spec(I, VStr(UPPER(txt)))[1])))
+            elif a.tag in ("int", "real", "bool"):
+                pass
+            else:
+                out.append(z3.And(g, z3.Bool(I.fresh_name("secs_rejects_obj"))))
+        return VBool(z3.Or(out + [z3.BoolVal(False)]))
+    C.helpers["secs_rejects"] = secs_rejects
+    C.fn("Util.string_to_secs", params=dict(time_string=Str), result=Real,
+         ensures=[("a time string without any unit letter is SECONDS (also negative and relative values such as -1, "
+                   "+2); with a unit it is that unit; the result is the millisecond value / 1000",
+                   "result * 1000 == (time_value(upper(time_string)) if has_letter(time_string) else "
+                   "time_value(upper(time_string + 's')))")],
+         raises={"ValueError": "secs_rejects(time_string)"},
+         modifies=[], allow_decorators=["staticmethod"],
+         call_ensures=[], replay_seeds={"time_string": ["-1", "2", "+3", "1.5s", "100ms", "-2.5"]})
 
     # ---- the validators
     C.cls("Logger", fields=dict(name=Str))
-    C.cls("ConfigValidator", file=CV, fields=dict(log=ObjS("Logger")))
+    common.declare_noop(C, "Logger", "warning", "error", "info", "debug", reason="logging")
+
+    def machine_config(I, name):
+        if I.ctx.fork(2) == 0:
+            return I.new_dict(())
+        return I.new_dict((("mpf", I.fresh(Rec(allow_invalid_config_sections=Bool), name + "[mpf]")),))
+    C.cls("ConfigValidator", file=CV, fields=dict(log=ObjS("Logger"),
+                                                  machine=ObjS("MachineController", config=Init(machine_config))))
     VFI = Opaque("ValidationPath")
 
     def verr(I, env, args, kwargs):
@@ -167,6 +198,43 @@ def build():
           trusted_reason="builds the ConfigFileError (an AssertionError) that the validators raise")
     REJ = {"AssertionError": True}
     PARAM = OneOf(*RANGES)
+
+    # ---- unknown settings are rejected wherever they stand in the section
+    C.namedtuple(CV, "ValidationPath")
+    NK = common.bound(2, 3)
+    VP = TupleS(TupleS(Opaque("ValidationPath"), Str, ntname="ValidationPath", fields=("parent", "item")), Str,
+                ntname="ValidationPath", fields=("parent", "item"))
+
+    def section(I, name):
+        n = I.ctx.fork(NK + 1)
+        ks = []
+        for i in range(n):
+            k = z3.String("%s.key%d" % (name, i))
+            I.ctx.assume(z3.Length(k) > 0)
+            for o in ks:
+                I.ctx.assume(k != o)
+            ks.append(k)
+        I.__dict__["c12_section_keys"] = ks
+        return I.new_dict(tuple((VStr(k), VInt(z3.Int("%s.val%d" % (name, i)))) for i, k in enumerate(ks)))
+    KNOWN = ("known_a", "known_b")
+
+    def some_key_invalid(I):
+        ks = I.__dict__.get("c12_section_keys", [])
+        bad = [z3.And(z3.And([k != z3.StringVal(x) for x in KNOWN]), z3.Not(z3.PrefixOf(z3.StringVal("_"), k)))
+               for k in ks]
+        return VBool(z3.Or(bad + [z3.BoolVal(False)]))
+    C.helpers["some_key_invalid"] = some_key_invalid
+    C.fn("ConfigValidator.check_for_invalid_sections",
+         params=dict(spec=Init(lambda I, name: I.new_dict(tuple((x, VInt(0)) for x in KNOWN))),
+                     config=Init(section), validation_failure_info=VP),
+         lets={"lenient": "'mpf' in self.machine.config and "
+                          "self.machine.config['mpf']['allow_invalid_config_sections']"},
+         ensures=[("U1: a section is accepted only if EVERY key - wherever it stands, also after a private '_' key - is "
+                   "a setting of the spec or private (unless mpf:allow_invalid_config_sections)",
+                   "lenient or not some_key_invalid()")],
+         raises={"ConfigFileError": "some_key_invalid() and not lenient"},
+         modifies=[], loops={0: LoopSpec(invariant=[], unroll=True)},
+         bounded="BOUNDED: sections of at most %d keys (symbolic, distinct, non-empty names); spec with two settings" % NK)
 
     C.fn("ConfigValidator._validate_range_min_smaller_max",
          params=dict(item=ITEM, value=Num, param=PARAM, validation_failure_info=VFI),
